@@ -51,7 +51,7 @@ def rule_not_clonable(ctx, res):
     res.check(not ws, 'WHO', 'handler::DhtHandler.aid_generator', 'the action-id generator is never replaced', detail=str([x[0].path for x in ws]))
     gs = ctx.calls_to(T + 'AIDGenerator::generate')
     exp = {'handler::DhtHandler::new', 'handler::DhtHandler::start_lookup::{closure#0}', T + 'AIDGenerator::generate'}
-    res.check({x.body.path for x in gs} <= exp and len(gs) >= 4, 'WHO', T + 'AIDGenerator::generate', 'activities obtain their generator from the node generator: refresh, bootstrap (construction) and each search', detail=str(gs))
+    res.check({x.body.path for x in gs} <= exp and len(gs) >= 3, 'WHO', T + 'AIDGenerator::generate', 'activities obtain their generator from the node generator: refresh, bootstrap (construction) and each search', detail=str(gs))
     for ty, f in (('action::lookup::TableLookup', 'id_generator'), ('action::refresh::TableRefresh', 'id_generator'), ('action::bootstrap::TableBootstrapInner', 'id_generator')):
         ws = ctx.field_writes('^' + ty + '$', f)
         res.check(not ws, 'WHO', ty + '.' + f, 'an activity never swaps its generator', detail=str([x[0].path for x in ws]), key='gen-assign:' + ty)
@@ -64,15 +64,29 @@ def rule_generators(ctx, res):
         res.touch(b)
         s = Sym(b)
         s.run()
-        ok = len(s.complete_paths()) == 2
+        ok = len(s.complete_paths()) >= 2
+        seen_kinds = set()
         for p in s.complete_paths():
+            # "is there an id left in the block?": `ids.get(curr_index)` is Some, or `curr_index < ids.len()` / `< LEN`
             got = [option_is_some(literal(c)[2]) for c in p.conds if literal(c)[0] == 'variant' and literal(c)[1][0] == 'call' and literal(c)[1][1].endswith('::get')
                    and is_field_of_param(literal(c)[1][2][0], 'self', arr) and is_field_of_param(literal(c)[1][2][1], 'self', 'curr_index')]
+            for c in p.conds:
+                l = literal(c)
+                if l[0] == 'lt' and l[3] is not None and is_field_of_param(l[1], 'self', 'curr_index'):
+                    lim = strip_transparent(l[2])
+                    is_len = (isinstance(lim, tuple) and lim[0] == 'call' and lim[1].split('::')[-1] == 'len' and field_chain(strip_transparent(lim[2][0]))[-1:] == [arr]) or term_int(lim) == 2048
+                    if is_len:
+                        got.append(bool(l[3]))
             if not got:
                 ok = False
                 continue
-            ws = {field_chain(e[1])[0]: e[2] for e in lib.writes_of(p) if field_chain(e[1])}
-            if got[-1]:
+            ws_seq = [(field_chain(e[1])[0], e[2]) for e in lib.writes_of(p) if field_chain(e[1])]
+            ws = dict(ws_seq)          # last write per field
+            first = {}
+            for k, v in ws_seq:
+                first.setdefault(k, v)
+            if got[0]:
+                seen_kinds.add('hit')
                 # hand out ids[curr_index], advance by one
                 inc = ws.get('curr_index')
                 if not (set(ws) == {'curr_index'} and inc[0] == 'bin' and inc[1] == 'Add' and is_field_of_param(inc[2], 'self', 'curr_index') and term_int(inc[3]) == 1):
@@ -80,20 +94,26 @@ def rule_generators(ctx, res):
                 r = p.ret
                 if shift:
                     a = strip_transparent(r[2][0]) if r[0] == 'call' and r[1] == T + 'MIDGenerator::new' else None
-                    if not (a and a[0] == 'bin' and a[1] == 'Shl' and term_int(a[3]) == 24 and find_calls(a[2], '::get')):
+                    if not (a and a[0] == 'bin' and a[1] == 'Shl' and term_int(a[3]) == 24 and (find_calls(a[2], '::get') or (strip_transparent(a[2])[0] == 'index' and is_field_of_param(strip_transparent(a[2])[2], 'self', 'curr_index')))):
                         ok = False
                 else:
                     a = strip_transparent(r[2][0]) if r[0] == 'call' and r[1] == T + 'TransactionID::new' else None
-                    if not (a and a[0] == 'bin' and a[1] == 'BitOr' and is_field_of_param(a[2], 'self', 'action_id') and find_calls(a[3], '::get')):
+                    if not (a and a[0] == 'bin' and a[1] == 'BitOr' and is_field_of_param(a[2], 'self', 'action_id') and (find_calls(a[3], '::get') or (strip_transparent(a[3])[0] == 'index' and is_field_of_param(strip_transparent(a[3])[2], 'self', 'curr_index')))):
                         ok = False
             else:
-                # block exhausted: new shuffled block from next_alloc, index reset, then retry
-                na, ids, ci = ws.get('next_alloc'), ws.get(arr), ws.get('curr_index')
-                good = (na is not None and ids is not None and term_int(ci) == 0 and find_calls(na, gfn.split('::')[-1]) and find_calls(ids, gfn.split('::')[-1])
-                        and is_field_of_param(find_calls(na, gfn.split('::')[-1])[0][2][0], 'self', 'next_alloc')
-                        and any(e[0] == 'call' and e[1].endswith('::shuffle') for e in p.effects) and p.ret[0] == 'call' and p.ret[1] == gen)
-                if not good:
+                seen_kinds.add('miss')
+                # block exhausted: new shuffled block from next_alloc, index reset, then retry (by recursion, or by falling
+                # through to the hand-out code: the id handed out is then ids'[0] and the index ends at 1)
+                na, ids, ci0 = first.get('next_alloc'), first.get(arr), first.get('curr_index')
+                fresh = (na is not None and ids is not None and term_int(ci0) == 0 and find_calls(na, gfn.split('::')[-1]) and find_calls(ids, gfn.split('::')[-1])
+                         and is_field_of_param(find_calls(na, gfn.split('::')[-1])[0][2][0], 'self', 'next_alloc')
+                         and any(e[0] == 'call' and e[1].endswith('::shuffle') for e in p.effects))
+                retry = p.ret[0] == 'call' and p.ret[1] == gen and term_int(ws.get('curr_index')) == 0
+                idx0 = [x for x in lib.term_walk(p.ret) if isinstance(x, tuple) and x and x[0] == 'index' and term_int(x[2]) == 0 and find_calls(x[1], gfn.split('::')[-1])]
+                direct = bool(idx0) and term_int(ws.get('curr_index')) == 1 and (p.ret[0] == 'call' and p.ret[1] in (T + 'MIDGenerator::new', T + 'TransactionID::new'))
+                if not (fresh and (retry or direct)):
                     ok = False
+        ok = ok and seen_kinds == {'hit', 'miss'}
         res.check(ok, 'TABLE', gen, 'hand out ids[curr_index] and advance by one; when the block is exhausted allocate the next block from next_alloc, shuffle it, reset the index and retry', site=b.span)
         g = ctx.body(gfn)
         res.touch(g)
